@@ -45,6 +45,9 @@ def pf_to_stage_lines(cases, rng, limit):
         if t[0] != "pf":
             continue
         out.append("pn %s %s %s" % (t[2], t[3], t[4]))
+    for _ in range(200):
+        v = rng.choice([0, 1, 1844674407370955161, 1844674407370955162, 2 ** 64 - 1, rng.getrandbits(64), rng.getrandbits(60)])
+        out.append("adddigit %d %d" % (v, rng.choice([0, 5, 6, 9, 255])))
     return out
 
 def mp_to_stage_lines(cases, rng, limit, compact):
